@@ -1,7 +1,9 @@
 """C01 - close() reaches a fixed point: every rule holds in the closed model.
 
 Deciding method: (i) Coq theorem C01_close_closed about the set-level model of the generated loop (coq/Engine),
-under the per-program family obligation FamOK (property C16's instance obligations); (ii) the verified
+under the per-program family obligation FamOK (property C16's instance obligations) and the per-rule-function obligation
+ram_matches_flat (coq/Ram: the emitted nested loops enumerate exactly the matches of their flat rule), both translated from the
+emitted text on this run; (ii) the verified
 closedness oracle of coq/Sem (closed_b sound AND complete for the declarative rule semantics) evaluated in
 Coq on the implementation's dump after the final close() of generated programs x fact sets x histories.
 """
@@ -71,4 +73,30 @@ def run(ctx):
                     ctx.sample({"program": res["text"], "calls": str(run_["calls"])[:500], "dump": run_["lines"][-1][:400]})
     ctx.cov["runs"] = stats
     done = j.run() if ok_sem else False
+    # instance obligations on the emitted rule functions of these programs (translated from the emitted text now):
+    # the nested loops enumerate exactly the matches of the flat rule in the comment (C01_ram_matches_flat_sound)
+    import os
+    import shutil
+    import gendrv
+    import ram_obligations
+    from common import CACHE, sh
+    scratch = os.path.join(CACHE, "scratch", "c01ram-%d" % os.getpid())
+    try:
+        comp_dirs, texts = [], {}
+        for res in results:
+            if res["status"] != "ok":
+                continue
+            d = os.path.join(scratch, "p%d" % res["idx"])
+            for sub in ("in", "out", "comp"):
+                os.makedirs(os.path.join(d, sub))
+            open(os.path.join(d, "in", "thy.eql"), "w").write(res["text"])
+            rc, out = sh([os.path.join(CACHE, "target", "release", "build-driver"), "component", os.path.join(d, "in"), os.path.join(d, "out"),
+                          os.path.join(d, "comp"), os.path.join(os.path.dirname(os.path.dirname(os.path.abspath(__file__))),
+                                                                   "harness", "build-driver", "fake_rustc.sh"), "x"], timeout=120)
+            if rc == 0:
+                comp_dirs.append(("p%d" % res["idx"], os.path.join(d, "comp")))
+                texts["p%d" % res["idx"]] = res["text"]
+        ram_obligations.ram_obligations(ctx, comp_dirs, pid_for_violation="C01", texts=texts, build=True, tag="c01ram")
+    finally:
+        shutil.rmtree(scratch, ignore_errors=True)
     ctx.obligation("oracle:closed_b on every final dump", done and not ctx.violations, "%d dumps judged in Coq" % stats["dumps"])
